@@ -118,13 +118,20 @@ class App(object):
         self.trace = trace
         self.world = world
         self.counts = {}
+        self.attempt = -1
         self.ws = None
 
     def react(self, ev):
+        if ev.name == 'connecting':
+            # (name, nth) rules count per connection attempt
+            self.counts = {}
+            self.attempt += 1
         nth = self.counts.get(ev.name, 0)
         self.counts[ev.name] = nth + 1
         for rule in self.rules:
             wh = rule['when']
+            if 'attempt' in wh and wh['attempt'] != self.attempt:
+                continue
             if 'index' in wh:
                 if wh['index'] != ev.index:
                     continue
